@@ -15,11 +15,14 @@
    the table of view-change requests (its own request included) is never written again (SignLCV.v, Typed.v, SignLNoCV.v);
    from its signature request on, every Commit payload it broadcasts - the first broadcast and every direct retransmission - is
    the commit built at that request (TypedCM.v, SignLCM.v).
+   The same for the pre-commit under anti-MEV (SignP.v .. SignPNoCV.v, the construction with the roles of the two phases exchanged):
+   the node asks for pre-commit data at most once per epoch, its own PreCommit slot keeps that pre-commit, and from that request
+   on no call changes the view or makes it broadcast a ChangeView.
    The history-level clauses about proposals, responses and pre-commits (no two per view / at all), the commits carried inside
    recovery messages, view monotonicity of the outgoing messages and the recovery contents are NOT proved; they
    are decided by the monitors on the real library over the generated histories (DESIGN.md section 0.1). *)
 From Coq Require Import ZArith List.
-From DbftV Require Import P03 P02 SignLApi SignLCV Typed SignLNoCV SignLCM.
+From DbftV Require Import P03 P02 SignLApi SignLCV Typed SignLNoCV SignLCM SignPApi SignPNoCV.
 Open Scope Z_scope.
 
 Definition own_commit_or_precommit_sent (s : nstate) : Prop :=
@@ -155,3 +158,29 @@ Theorem commit_broadcasts_of_an_epoch_are_identical cfg st g mi g1 s p g2 g1' s'
   MyIndex s = MyIndex s' -> p = p'.
 Proof. exact (commit_broadcasts_after_the_signature_are_identical cfg st g mi g1 s p g2 g1' s' p' g2'). Qed.
 Print Assumptions commit_broadcasts_of_an_epoch_are_identical.
+
+(* The lock after the PreCommit (anti-MEV).  nset g counts the requests for pre-commit data (the SetData callback, made when the node
+   builds its PreCommit) in g; set_precommit g is the PreCommit built at the first of them. *)
+Theorem an_honest_node_builds_at_most_one_precommit_per_epoch cfg st g mi :
+  Epoch cfg st g -> KS mi g -> zlen (Validators st) <= 65536 -> (nset g <= 1)%nat.
+Proof. exact (one_precommit_per_epoch cfg st g mi). Qed.
+Print Assumptions an_honest_node_builds_at_most_one_precommit_per_epoch.
+
+Theorem the_precommit_is_kept_until_the_next_epoch cfg st g mi :
+  Epoch cfg st g -> KS mi g -> zlen (Validators st) <= 65536 -> nset g <> 0%nat ->
+  exists c b, set_precommit g = Some c /\ slot (PreCommitPayloads st) mi = Some c /\ MyIndex st = mi /\ p_idx c = mi /\
+              p_view c = ViewNumber st /\ sg_key (precommit_data c) = MyKey st /\ preheader st = Some b /\ sg_hash (precommit_data c) = preblock_hash b.
+Proof. exact (set_precommit_is_kept cfg st g mi). Qed.
+Print Assumptions the_precommit_is_kept_until_the_next_epoch.
+
+Theorem after_its_precommit_the_node_never_leaves_the_view cfg st g ev sc st' tr mi :
+  Epoch cfg st g -> continues ev -> step cfg st ev sc = Ok (st', tr) -> KS mi (g ++ tr) -> zlen (Validators st) <= 65536 -> nset g <> 0%nat ->
+  ViewNumber st' = ViewNumber st /\ nset tr = 0%nat /\ slot (PreCommitPayloads st') mi = slot (PreCommitPayloads st) mi /\ MyIndex st' = MyIndex st.
+Proof. exact (precommit_lock cfg st g ev sc st' tr mi). Qed.
+Print Assumptions after_its_precommit_the_node_never_leaves_the_view.
+
+Theorem after_its_precommit_the_node_broadcasts_no_change_view cfg st g ev sc st' tr mi :
+  Epoch cfg st g -> continues ev -> step cfg st ev sc = Ok (st', tr) -> KS mi (g ++ tr) -> zlen (Validators st) <= 65536 -> nset g <> 0%nat ->
+  no_change_view_broadcast tr.
+Proof. intros HE Hc Hs Hk Hz Hn s p Hin. exact (no_change_view_after_the_precommit cfg st g ev sc st' tr mi s p HE Hc Hs Hk Hz Hn Hin). Qed.
+Print Assumptions after_its_precommit_the_node_broadcasts_no_change_view.
